@@ -36,6 +36,8 @@
 //	DC2  names, versions, locations, ids, timestamps, the SPDX "main" package, CPE-only entries:
 //	     only PURLs of the returned packages are compared; packages returned without PURL are ignored.
 //	DC3  order of the returned packages (multiset).
+//	     (canonical form = what the third-party packageurl-go library parses and prints, computed without
+//	     purl.String / purl.FromString; all components incl. every qualifier value are compared)
 //	DC4  canonicalisation differences (type/namespace/name case rules of the type, qualifier order,
 //	     dropped empty qualifiers): both sides are canonicalised with the library's own parser.
 //	DC5  extractor/plugin status and errors of the scan: only the package list is judged (an
@@ -141,6 +143,9 @@ type poolItem struct {
 
 const cpe = "cpe:2.3:a:vendor:pkg:1.0:*:*:*:*:*:*:*"
 
+// reserved: every character class that is reserved somewhere in a PURL or in URL encoding.
+const reserved = "a+b c%d&e=f?g#h@i:jé世"
+
 const specialName = `a b+c@d&e<f"g:h#i`
 
 func shapes(t string) []poolItem {
@@ -167,6 +172,11 @@ func shapes(t string) []poolItem {
 		mk("name-case", purl.PackageURL{Name: "Foo_Bar.Baz", Version: "1.0"}),
 		mk("namespace-case-space", purl.PackageURL{Namespace: "My Ns", Name: "pkg", Version: "1.0"}),
 		mk("no-version", purl.PackageURL{Name: "pkg"}),
+		mk("qualifiers-reserved", purl.PackageURL{Name: "pkg", Version: "1.0", Qualifiers: q(
+			"sourceversion", "12.2.0-14+deb12u1", "sourcerpm", "perl-Text-Tabs+Wrap-2013.0523-460.el9.src.rpm",
+			"download_url", "https://x.y/a+b?c=d&e=f#g", "classifier", reserved, "epoch", "1")}),
+		mk("namespace-reserved", purl.PackageURL{Namespace: "g++/" + reserved, Name: "pkg", Version: "1.0"}),
+		mk("subpath-reserved", purl.PackageURL{Name: "pkg", Version: "1.0", Subpath: "c++/" + reserved}),
 		mk("everything", purl.PackageURL{Namespace: "Ns1/n s2", Name: specialName, Version: "1~rc:2+3", Qualifiers: q("repository_url", "https://x.y/z?a=b", "arch", "x86"), Subpath: "sub dir/p"}),
 	}
 	out[6].Loc = `dir/file <1> & "2".lock`
@@ -241,11 +251,22 @@ func (p poolItem) pkg() *extractor.Package {
 	return &extractor.Package{Name: u.Name, Version: u.Version, Locations: []string{p.Loc}, Extractor: poolEx, Metadata: &u}
 }
 
+// Canonical forms are computed with the third-party packageurl-go library directly, never with
+// purl.String / purl.FromString (the code under test): every component, including each qualifier
+// value, namespace and subpath, takes part in the comparison.
+
+// canon: canonical form of a PURL string found in a written document.
 func canon(s string) string {
-	if u, err := purl.FromString(s); err == nil {
-		return u.String()
+	if u, err := packageurl.FromString(s); err == nil {
+		return u.ToString()
 	}
 	return s
+}
+
+// canonStruct: canonical form of a PURL struct (an inventory package's, or a re-imported one's).
+func canonStruct(u purl.PackageURL) string {
+	l := packageurl.PackageURL{Type: u.Type, Namespace: u.Namespace, Name: u.Name, Version: u.Version, Qualifiers: packageurl.Qualifiers(u.Qualifiers), Subpath: u.Subpath}
+	return canon(l.ToString())
 }
 
 type outcome struct {
@@ -333,7 +354,7 @@ func expectedBack(inv []poolItem, f format) []string {
 		if isSPDX && (p.U.Name == "" || p.U.Version == "") {
 			continue // DC1: the exclusion ToSPDX23 states
 		}
-		out = append(out, canon(p.U.String()))
+		out = append(out, canonStruct(*p.U))
 	}
 	sort.Strings(out)
 	return out
@@ -390,7 +411,7 @@ func roundTripOver(over, inv []poolItem, f format, dir string) (o outcome) {
 				continue
 			}
 			if u := p.Extractor.ToPURL(p); u != nil {
-				o.Got = append(o.Got, canon(u.String()))
+				o.Got = append(o.Got, canonStruct(*u))
 			}
 		}
 		sort.Strings(o.Got)
@@ -482,7 +503,7 @@ func scanWith(exs []filesystem.Extractor, dir string) []string {
 			continue
 		}
 		if u := p.Extractor.ToPURL(p); u != nil {
-			out = append(out, canon(u.String()))
+			out = append(out, canonStruct(*u))
 		}
 	}
 	sort.Strings(out)
